@@ -288,7 +288,22 @@ def boundary_probes(c: Converter, rng, extra_chars="", cap=28):
 # ---------------------------------------------------------------------------
 # operations
 
+_mk_count = [0]
+
+
 def mk_record(rec: dict) -> Record:
+    """Every other record is built the way people write them -- empty synonym lists and a missing pattern are simply NOT
+    passed (pydantic then treats the fields as unset defaults) --, the rest with every field given."""
+    _mk_count[0] += 1
+    if _mk_count[0] % 2:
+        kw = {"prefix": rec["p"], "uri_prefix": rec["u"]}
+        if rec.get("ps"):
+            kw["prefix_synonyms"] = list(rec["ps"])
+        if rec.get("us"):
+            kw["uri_prefix_synonyms"] = list(rec["us"])
+        if rec.get("pat") is not None:
+            kw["pattern"] = rec["pat"]
+        return Record(**kw)
     return Record(prefix=rec["p"], uri_prefix=rec["u"], prefix_synonyms=list(rec.get("ps", [])),
                   uri_prefix_synonyms=list(rec.get("us", [])), pattern=rec.get("pat"))
 
